@@ -50,49 +50,6 @@ WriterOps(s, spill) ==
         [k |-> "write", cells |-> <<HdrCell(1, spill), HdrCell(2, spill)>>],
         [k |-> "seek", to |-> Base(s) + EndOf(spill)] >>
 
-VARIABLES s, spill, short, img, pos, pc, sub, wstate, opcount, failFrom
-\* pc: index of the next writer op; sub: cells of the current write already transferred
-\* wstate: "run" | "done" | "err" | "crashed"
-vars == <<s, spill, short, img, pos, pc, sub, wstate, opcount, failFrom>>
-
-Prefill(p) == [i \in 1..(p + 1) |-> C("x")]            \* marker cells before (and one after) the start
-Put(image, at, c) ==                                 \* write one cell at 0-based position `at`, holes read as "z"
-  LET n == IF at + 1 > Len(image) THEN at + 1 ELSE Len(image)
-  IN [i \in 1..n |-> IF i = at + 1 THEN c ELSE IF i <= Len(image) THEN image[i] ELSE C("z")]
-
-Init == /\ s \in 0..MaxP /\ spill \in BOOLEAN /\ short \in BOOLEAN
-        /\ img = (IF s = 0 THEN << >> ELSE Prefill(s)) /\ pos = s
-        /\ pc = 1 /\ sub = 0 /\ wstate = "run" /\ opcount = 0
-        /\ failFrom \in {-1} \cup 0..24             \* -1: no fault
-
-Ops == WriterOps(s, spill)
-Failing == failFrom >= 0 /\ opcount >= failFrom
-
-\* one stream operation of the writer
-Step ==
-  /\ wstate = "run" /\ pc <= Len(Ops)
-  /\ opcount' = opcount + 1
-  /\ IF Failing
-     THEN /\ wstate' = "err" /\ UNCHANGED <<img, pos, pc, sub>>             \* the error is propagated (?)
-     ELSE LET op == Ops[pc] IN
-          CASE op.k = "seek"  -> /\ pos' = op.to /\ pc' = pc + 1 /\ UNCHANGED <<img, sub>>
-                                 /\ wstate' = IF pc = Len(Ops) THEN "done" ELSE "run"
-            [] op.k \in {"pos", "flush"} -> /\ pc' = pc + 1 /\ UNCHANGED <<img, pos, sub>> /\ wstate' = "run"
-            [] op.k = "write" ->
-                 LET n == Len(op.cells)
-                     k == IF n = 0 THEN 0 ELSE IF short THEN 1 ELSE n - sub     \* cells moved by this call
-                     newimg[j \in 0..k] == IF j = 0 THEN img ELSE Put(newimg[j - 1], pos + j - 1, op.cells[sub + j])
-                 IN /\ img' = newimg[k] /\ pos' = pos + k
-                    /\ IF sub + k >= n THEN pc' = pc + 1 /\ sub' = 0 ELSE pc' = pc /\ sub' = sub + k
-                    /\ wstate' = "run"
-  /\ UNCHANGED <<s, spill, short, failFrom>>
-
-Crash == /\ wstate = "run" /\ wstate' = "crashed"
-         /\ UNCHANGED <<s, spill, short, img, pos, pc, sub, opcount, failFrom>>
-
-Next == Step \/ Crash
-Spec == Init /\ [][Next]_vars
-
 (* ---- the reader, as a function of an image and the position it is given -------- *)
 Cell(image, at) == IF at + 1 <= Len(image) /\ at >= 0 THEN image[at + 1] ELSE C("eof")
 IsHdr(c, i) == c[1] = "h" /\ c[2] = i
@@ -115,6 +72,98 @@ OpenReads(image, at) ==
   LET c1 == Cell(image, at) IN
   {at, at + 1} \cup (IF IsHdr(c1, 1) THEN {at + c1[3].meta, at + c1[3].root} \cup
                         (IF c1[3].leaflen > 0 THEN {at + c1[3].leaf} ELSE {}) ELSE {})
+
+VARIABLES s, spill, short, img, pos, pc, sub, wstate, opcount, failFrom,
+          rstate, rpc, rgot, rreads, rops, rfail, rshort, rres
+\* pc: index of the next writer op; sub: cells of the current write already transferred
+\* wstate: "run" | "done" | "err" | "crashed"
+wvars == <<s, spill, short, img, pos, pc, sub, wstate, opcount, failFrom>>
+rvars == <<rstate, rpc, rgot, rreads, rops, rfail, rshort, rres>>
+vars == <<wvars, rvars>>
+
+Prefill(p) == [i \in 1..(p + 1) |-> C("x")]            \* marker cells before (and one after) the start
+Put(image, at, c) ==                                 \* write one cell at 0-based position `at`, holes read as "z"
+  LET n == IF at + 1 > Len(image) THEN at + 1 ELSE Len(image)
+  IN [i \in 1..n |-> IF i = at + 1 THEN c ELSE IF i <= Len(image) THEN image[i] ELSE C("z")]
+
+Init == /\ s \in 0..MaxP /\ spill \in BOOLEAN /\ short \in BOOLEAN
+        /\ img = (IF s = 0 THEN << >> ELSE Prefill(s)) /\ pos = s
+        /\ pc = 1 /\ sub = 0 /\ wstate = "run" /\ opcount = 0
+        /\ failFrom \in {-1} \cup 0..24             \* -1: no fault
+        /\ rstate = "idle" /\ rpc = "hdr" /\ rgot = << >> /\ rreads = {} /\ rops = 0 /\ rres = ErrO
+        /\ rfail \in {-1} \cup 0..9 /\ rshort \in BOOLEAN
+
+Ops == WriterOps(s, spill)
+Failing == failFrom >= 0 /\ opcount >= failFrom
+
+\* one stream operation of the writer
+Step ==
+  /\ wstate = "run" /\ pc <= Len(Ops)
+  /\ opcount' = opcount + 1
+  /\ IF Failing
+     THEN /\ wstate' = "err" /\ UNCHANGED <<img, pos, pc, sub>>             \* the error is propagated (?)
+     ELSE LET op == Ops[pc] IN
+          CASE op.k = "seek"  -> /\ pos' = op.to /\ pc' = pc + 1 /\ UNCHANGED <<img, sub>>
+                                 /\ wstate' = IF pc = Len(Ops) THEN "done" ELSE "run"
+            [] op.k \in {"pos", "flush"} -> /\ pc' = pc + 1 /\ UNCHANGED <<img, pos, sub>> /\ wstate' = "run"
+            [] op.k = "write" ->
+                 LET n == Len(op.cells)
+                     k == IF n = 0 THEN 0 ELSE IF short THEN 1 ELSE n - sub     \* cells moved by this call
+                     newimg[j \in 0..k] == IF j = 0 THEN img ELSE Put(newimg[j - 1], pos + j - 1, op.cells[sub + j])
+                 IN /\ img' = newimg[k] /\ pos' = pos + k
+                    /\ IF sub + k >= n THEN pc' = pc + 1 /\ sub' = 0 ELSE pc' = pc /\ sub' = sub + k
+                    /\ wstate' = "run"
+  /\ UNCHANGED <<s, spill, short, failFrom>> /\ UNCHANGED rvars
+
+Crash == /\ wstate = "run" /\ wstate' = "crashed"
+         /\ UNCHANGED <<s, spill, short, img, pos, pc, sub, opcount, failFrom>> /\ UNCHANGED rvars
+
+
+(* ---- the reader as a program over the stream (runs on the final or on a torn image) ---------- *)
+\* It is handed the stream positioned at the archive's start s and reads: the H header cells
+\* (possibly one cell per read), then -- each after a seek -- the metadata cell, the root cell and,
+\* if the root holds pointers, the leaf cell.  Every read position is recorded in rreads.
+RFailing == rfail >= 0 /\ rops >= rfail
+RStart == /\ wstate \in {"done", "crashed"} /\ rstate = "idle"
+          /\ rstate' = "run" /\ UNCHANGED <<rpc, rgot, rreads, rops, rfail, rshort, rres>> /\ UNCHANGED wvars
+RFinish(res) == rstate' = (IF res = ErrO THEN "err" ELSE "ok") /\ rres' = res
+RStep ==
+  /\ rstate = "run"
+  /\ rops' = rops + 1
+  /\ IF RFailing THEN /\ rstate' = "err" /\ rres' = ErrO /\ UNCHANGED <<rpc, rgot, rreads>>
+     ELSE
+     CASE rpc = "hdr" ->
+            LET k == IF rshort THEN 1 ELSE H - Len(rgot)
+                new == rgot \o [j \in 1..k |-> Cell(img, s + Len(rgot) + j - 1)]
+            IN /\ rreads' = rreads \cup {s + Len(rgot) + j - 1 : j \in 1..k}
+               /\ rgot' = new
+               /\ IF Len(new) < H THEN rpc' = "hdr" /\ UNCHANGED <<rstate, rres>>
+                  ELSE IF IsHdr(new[1], 1) /\ IsHdr(new[2], 2) /\ new[1][3] = new[2][3]
+                       THEN rpc' = "meta" /\ UNCHANGED <<rstate, rres>>
+                       ELSE rpc' = "hdr" /\ RFinish(ErrO)
+       [] rpc = "meta" ->                     \* seek + read counted as one step each would only add states
+            LET t == rgot[1][3] IN
+            /\ rreads' = rreads \cup {s + t.meta}
+            /\ UNCHANGED rgot
+            /\ IF Cell(img, s + t.meta) = C("meta") THEN rpc' = "root" /\ UNCHANGED <<rstate, rres>>
+               ELSE rpc' = "meta" /\ RFinish(ErrO)
+       [] rpc = "root" ->
+            LET t == rgot[1][3]  c == Cell(img, s + t.root) IN
+            /\ rreads' = rreads \cup {s + t.root}
+            /\ UNCHANGED rgot
+            /\ IF t.leaflen = 0
+               THEN rpc' = "root" /\ RFinish(IF c = C("root") THEN [dirs |-> "root", data |-> s + t.data] ELSE ErrO)
+               ELSE IF c = C("ptrs") THEN rpc' = "leaf" /\ UNCHANGED <<rstate, rres>>
+               ELSE rpc' = "root" /\ RFinish(ErrO)
+       [] rpc = "leaf" ->
+            LET t == rgot[1][3] IN
+            /\ rreads' = rreads \cup {s + t.leaf}
+            /\ UNCHANGED <<rgot, rpc>>
+            /\ RFinish(IF Cell(img, s + t.leaf) = C("leaf") THEN [dirs |-> "ptrs+leaf", data |-> s + t.data] ELSE ErrO)
+  /\ UNCHANGED <<rfail, rshort>> /\ UNCHANGED wvars
+
+Next == Step \/ Crash \/ RStart \/ RStep
+Spec == Init /\ [][Next]_vars
 
 (* ---- what a complete, undisturbed run produces ------------------------------------ *)
 RECURSIVE RunAll(_, _, _, _)
@@ -148,7 +197,18 @@ ScheduleIndependent == wstate = "done" => img = Final.img /\ pos = Final.pos
 LazyOpen == wstate = "done" =>
               \A c \in OpenReads(img, s) : Cell(img, c)[1] \notin {"data", "x", "z", "eof"}
 
+\* the reader program computes exactly the functional reader, for every read schedule
+ReaderAgrees == (rstate \in {"ok", "err"} /\ ~(rfail >= 0 /\ rfail < rops)) => rres = Open(img, s)
+\* C15 (reading side): a failing stream never yields an opened archive
+ReaderFaultSurfaces == (rfail >= 0 /\ rfail < rops) => rstate # "ok"
+\* C20: every cell the reader touches is a header, metadata or directory cell named by the header it read
+ReadsInsideSections ==
+  rstate = "ok" => \A c \in rreads : c \in {s, s + 1} \/ Cell(img, c)[1] \in {"meta", "root", "ptrs", "leaf"}
+\* C17 (reading side): a torn image never opens unless it is the final one
+TornNeverOpens == (wstate = "crashed" /\ rstate = "ok") => img = Final.img
+
 Safety == PrefixUntouched /\ Placement /\ TornRejected /\ HeaderLast /\ FaultSurfaces /\ ScheduleIndependent /\ LazyOpen
+          /\ ReaderAgrees /\ ReaderFaultSurfaces /\ ReadsInsideSections /\ TornNeverOpens
 \* the same without the start-position clauses (used to show the deviation violates exactly those)
 SafetyNoPlacement == TornRejected /\ FaultSurfaces /\ ScheduleIndependent
 =============================================================================
